@@ -239,6 +239,24 @@ pub enum Operation {
     Special(PathBuf, PathBuf),
 }
 
+// `path` without `.` components and with `name/..` cancelled, as
+// spelled (no links are resolved).
+fn lexical(path: &Path) -> PathBuf {
+    let mut out = PathBuf::new();
+    for c in path.components() {
+        match c {
+            Component::CurDir => {}
+            Component::ParentDir => {
+                if !out.pop() {
+                    out.push("..");
+                }
+            }
+            c => out.push(c),
+        }
+    }
+    out
+}
+
 pub fn tree_walker(
     sources: Vec<PathBuf>,
     dest: &Path,
@@ -258,6 +276,10 @@ pub fn tree_walker(
     // backups of.
     let mut replaced: HashSet<PathBuf> = HashSet::new();
     let mut backup_named: HashSet<PathBuf> = HashSet::new();
+    // Where files written through existing links in the destination
+    // end up, and every destination path so far, both as spelled.
+    let mut through_links: HashSet<PathBuf> = HashSet::new();
+    let mut spelled: HashSet<PathBuf> = HashSet::new();
 
     for source in sources {
         let sourcedir = source
@@ -332,6 +354,30 @@ pub fn tree_walker(
                         return Err(XcpError::EarlyShutdown(msg).into());
                     }
                 }
+            }
+
+            // A symbolic link already sitting at the destination of a
+            // file may lead to another path this run writes (a link
+            // to a sibling, left by an earlier copy). Whether the two
+            // sources then end up in one file would depend on which
+            // is copied first, and on whether the other exists yet.
+            if !meta.is_dir() {
+                let here = lexical(&target);
+                let mut clash = through_links.contains(&here);
+                if meta.is_file() {
+                    if let Ok(text) = read_link(&target) {
+                        let via = lexical(&target.parent().unwrap_or(Path::new("")).join(text));
+                        clash = clash || (via != here && spelled.contains(&via));
+                        through_links.insert(via);
+                    }
+                }
+                if clash {
+                    let msg = "Will not write through a link to another destination of this same copy.";
+                    stats.send(StatusUpdate::Error(
+                        XcpError::DestinationExists(msg, target)))?;
+                    return Err(XcpError::EarlyShutdown(msg).into());
+                }
+                spelled.insert(here);
             }
 
             // With backups, the old version of a file this run
